@@ -91,7 +91,7 @@ def plan_for(pid, tier):
     P["C19"] = [("engfail", 3 if q else 12, 0)]
     if pid == "C19":
         common.update(life_cfg="LifeVecQ.cfg", tags=("verif", "vectors"), attr_all=True, walks=40)
-    P["C09"] = [("mergey", 8 if q else 120, 7), ("syn", 6 if q else 80, 6), ("rich", 4 if q else 60, 5), ("wide", 1 if q else 6, 5), ("leancross", 0 if q else 1, 0)]
+    P["C09"] = [("mergey", 8 if q else 120, 7), ("syn", 6 if q else 80, 6), ("rich", 4 if q else 60, 5), ("wide", 1 if q else 6, 5), ("leancross", 1 if q else 2, 0)]
     if pid == "C09":
         common.update(layout=True, maxtlc=2000 if q else 30000, life_cfg="LifeSynQ.cfg" if q else "LifeSyn.cfg", walks=120 if q else 3000)
     P["C14"] = [("vec", 24 if q else 250, 5)]
@@ -216,7 +216,7 @@ def validate(sc, trace, name, timeout=3000):
             txt = open(outp, errors="replace").read()
             k = txt.find("TLC threw an unexpected exception")
             at = re.findall(r"^/\\ l = (\d+)$", txt[k:], re.M) if k >= 0 else []
-            if k >= 0 and "module ZapLayout" in txt[k:] and at:
+            if k >= 0 and at:   # (if the file was not the cause, the exception returns on the retry and the run is inconclusive)
                 ln = int(at[-1])
                 lines = open(trace).read().splitlines()
                 ev = json.loads(lines[ln - 1])
